@@ -63,7 +63,7 @@ def match_known(known, prop, group, ob):
     return None
 
 
-def conclude(prop, tier, seed, comps, metas, results, infra, t_start, verbose=False):
+def conclude(prop, tier, seed, comps, metas, results, infra, t_start, verbose=False, deferred=()):
     known = load_known()
     gmap = {}
     for c in comps.values():
@@ -180,7 +180,7 @@ def conclude(prop, tier, seed, comps, metas, results, infra, t_start, verbose=Fa
             rc = 2
     wall = time.time() - t_start
     write_evidence(prop, tier, seed, n_ob, n_ok, n_bounded, n_bounded_ok, groups_ev, samples, sorted(funcs), solver_s,
-                   tagged, known_hits, violations, infra, wall, comps, metas)
+                   tagged, known_hits, violations, infra, wall, comps, metas, deferred)
     print('%s tier=%s: %d/%d proof obligations discharged, %d/%d bounded, %d groups, %d known findings, %d violations, %d undecided, %.1fs' % (
         prop, tier, n_ok, n_ob, n_bounded_ok, n_bounded, len(groups_ev), len(printed), len(violations), len(infra), wall))
     return rc
@@ -190,7 +190,7 @@ LEVELS = None
 
 
 def write_evidence(prop, tier, seed, n_ob, n_ok, n_b, n_bok, groups_ev, samples, funcs, solver_s, assumes, known_hits,
-                   violations, infra, wall, comps, metas):
+                   violations, infra, wall, comps, metas, deferred=()):
     import vcheck
     man = json.load(open(os.path.join(ROOT, 'MANIFEST.json')))
     level = 'proof'
@@ -222,6 +222,7 @@ def write_evidence(prop, tier, seed, n_ob, n_ok, n_b, n_bok, groups_ev, samples,
         'static_facts': static_facts[:60],
         'known_findings_hit': [k['what'] for k, _, _ in known_hits],
         'undecided': infra,
+        'groups_deferred_to_thorough_tier': list(deferred),
         'explanation': 'contracts on the C text extracted mechanically from the current /repo tree, enforced function by function with CBMC code contracts; %d groups' % len(groups_ev),
         'evaluations': max(n_ob + n_b, 1),
         'distinct_nontrivial': max(len(set(g['group'] for g in groups_ev)), 2) if len(groups_ev) >= 2 else 2,
